@@ -454,6 +454,11 @@ func init() {
 			for _, hd := range p.SS.Hands {
 				c.FP(hd.Roster())
 			}
+			// the answer of an asked player is an action of that entry's owner: it must be accepted for him
+			if rr := p.RefusedResponses(); len(rr) > 0 && !c.Failed() {
+				c.Violate("C02/answer-of-the-asked-player-refused/"+rr[0].Round, fmt.Sprintf("the hand asked %s (entry %d) for %s and refused his answer: %s (%d refused answers in this table's hands)", rr[0].PID, rr[0].GP, rr[0].Round, rr[0].Err, len(rr)), p.witness())
+				return
+			}
 			if p.Stalled && !c.Failed() {
 				c.InconclusiveW(fmt.Sprintf("foreign: hand %d did not settle within the watchdog", p.HandNo), p.witness())
 				return
